@@ -5,7 +5,7 @@ equality after every prefix of a history).
 Histories = sequences of public operations (menu in `_tree_hist.fixed_menu`
 plus remove_ind_ / remove_ind_(project=) / restore_ind_ for every index of the
 network), applied to a complete tree that starts in one of six prepared cache
-states.  After EVERY applied step, on a deep snapshot made by the harness:
+states (seven here: the six of DESIGN 2.5 + 'sliced, sorted, then contracted').  After EVERY applied step, on a deep snapshot made by the harness:
 
  (1) `tree.contract(polynomial arrays)` equals `symval.dense_einsum` of the
      ORIGINAL network (with the indices projected so far fixed) - value, shape
@@ -109,6 +109,7 @@ def run_bounded(rep: Report, tier: str) -> None:
     viols = H.run_histories(
         rep, tier, pid="C02", module=MODULE, checker=Checker, sizes="small", with_write=False,
         quick_budget_s=150, nsamp_quick=320, nsamp_thorough=6000, seed_value=seed(), pmap=pmap, deadline=deadline,
+        preps=H.PREP_ORDER_VALUE,
     )
     H.report_violations(rep, MODULE, viols)
     rep.explanation += (
